@@ -593,6 +593,10 @@ func init() {
 			}
 			return nil
 		},
+		vrtPath + ".G2": func(fr *frame, a []value) value {
+			fr.i.sched.g2budget = fr.i.run.concrete(a[0]).(int)
+			return nil
+		},
 		vrtPath + ".Preempt": func(fr *frame, a []value) value { fr.i.sched.preempt = a[0].(bool); return nil },
 		vrtPath + ".SetMapOrder": func(fr *frame, a []value) value {
 			fr.i.run.orderVal = fr.i.run.concrete(a[0]).(int)
